@@ -23,6 +23,7 @@ from nacl.bindings import crypto_secretbox
 from twisted.internet import error as tw_error
 from twisted.internet.interfaces import IConsumer, ITransport
 from twisted.internet.task import Clock
+from twisted.python.failure import Failure
 from zope.interface import implementer
 
 from wormhole import transit
@@ -37,7 +38,8 @@ TRUSTED = ["XSalsa20-Poly1305 (NaCl SecretBox): an interface in Lean whose ideal
            "(only the honest sealings open); the harness runs real NaCl against the ideal table on every case",
            "HKDF: injective in CTXinfo (hypothesis); the CTXinfo strings themselves are regenerated from /repo",
            "PyNaCl's SecretBox.decrypt wrapper (exception class by blob length) is modelled, not verified",
-           "Twisted: after transport.loseConnection() the reactor calls connectionLost once; an exception leaving "
+           "Twisted: after transport.loseConnection() the reactor calls connectionLost once (the harness reports losses as "
+           "Twisted does: Failure(ConnectionDone) for a FIN, Failure(ConnectionLost) for a reset, or no argument); an exception leaving "
            "dataReceived drops the connection",
            "transit handshake (C07) is run for real by the harness but not modelled here; the model starts at "
            "_negotiationSuccessful (bytes riding behind the handshake are the first chunk: leftover_is_first_chunk)",
@@ -52,7 +54,8 @@ RULE = ("two real Connections (TransitSender/TransitReceiver owners, real handsh
         "directions, read / chained-read / pipelined reads / consumer / writeToFile modes, random trees of re-entrant "
         "callbacks (reads issued from read callbacks, consumers attached mid-stream over queued records and outstanding "
         "reads, detached, re-attached from their own Deferred's callback, close() from callbacks), connectionLost and "
-        "close at arbitrary points; the order in which records leave the connection is observed by instrumenting the "
+        "close at arbitrary points, the loss reported as FIN / reset / without argument, the stream cut at every byte position "
+        "with consumers and reads outstanding; the order in which records leave the connection is observed by instrumenting the "
         "inbound queue in-process; "
         "non-trivial = at least one record accepted or one manipulation detected; distinct = distinct canonical traces")
 
@@ -593,8 +596,23 @@ def run_case(case):
             if not lost_called:
                 lost_called = True
                 rcv.lost_at_id = rcv.next_id
-                rcv.conn.connectionLost(tw_error.ConnectionDone())
-                do(f"lost {rcv_role}", rcv)
+                for rec in rcv.consumers:
+                    h = rec["holder"]
+                    rec["pending_at_loss"] = (rec["d"] is not None and "done" not in h and "fail" not in h
+                                              and not rec.get("detached"))
+                # the way a real Twisted transport reports it: Failure(ConnectionDone) for an orderly FIN,
+                # Failure(ConnectionLost) for a reset; "none" = no argument, as direct callers do
+                why = a[1] if len(a) > 1 else case.get("loss", "done")
+                if why == "done":
+                    rcv.conn.connectionLost(Failure(tw_error.ConnectionDone()))
+                elif why == "reset":
+                    rcv.conn.connectionLost(Failure(tw_error.ConnectionLost()))
+                elif why == "none":
+                    rcv.conn.connectionLost()
+                else:
+                    raise ValueError(a)
+                do(f"lost {rcv_role} {why}", rcv)
+                tags.append("loss:" + why)
         else:
             raise ValueError(a)
         tags.append("app:" + k)
@@ -697,6 +715,12 @@ def run_case(case):
             if rec["d"] is not None and "done" not in h and "fail" not in h and not rec["after_lost"] \
                     and not rec.get("detached"):
                 viol.append(("consumer-never-fails", "consumer Deferred pending at connectionLost never fired"))
+            if rec.get("pending_at_loss") and (h.get("fail") != "ConnectionClosed" or "done" in h):
+                total = sum(len(x) for x in rec["obj"].data)
+                viol.append(("consumer-completes-on-loss",
+                             f"connection lost ({case.get('loss', 'done')}) with the consumer Deferred outstanding after {total} of "
+                             f"expected={rec['expected']} bytes: it must errback with ConnectionClosed, but "
+                             f"done={h.get('done')} fail={h.get('fail')}"))
     # what the application observed is what left the connection: the records reads obtained plus the records
     # consumers were given (minus the empty kick of expected=0) are exactly the surfaced ones …
     got_reads = [rcv.read_result[i][1] for i in sorted(rcv.read_result) if rcv.read_result[i][0] == "ok"]
@@ -889,6 +913,7 @@ def gen_case(rng, adversarial):
     c["app"] = rand_app(rng, nchunks)
     if rng.random() < 0.2:
         c["late_reads"] = rng.randrange(1, 3)
+    c["loss"] = rng.choice(["done", "done", "reset", "none"])
     return c
 
 
@@ -1000,6 +1025,31 @@ def every_point():
     return out
 
 
+def every_cut():
+    """the stream cut at every byte position (record boundary, inside a length prefix, nonce, MAC, ciphertext) and the
+    loss reported as FIN / reset / without argument, with a consumer (and reads) outstanding"""
+    recs = [[3, 1], [0, 2], [2, 3]]
+    total = sum(4 + 40 + s for s, _ in recs)
+    whys = ["done", "reset", "none"]
+    out = []
+    for p in range(total + 1):
+        for v, why in enumerate(whys):
+            k = (p + v) % 3
+            if k == 0:      # writeToFile waiting for exactly the bytes of the three records
+                app = [[-1, ["consume", 5, "file"]]]
+            elif k == 1:    # a consumer whose count is never reached, attached behind an outstanding read
+                app = [[-1, ["read", 0]], [0, ["call", [["c", 50, "consumer", [["r", []]]]]]]]
+            else:           # reads outstanding, a consumer attached mid-stream
+                app = [[-1, ["read", 1]], [-1, ["read", 0]], [1, ["call", [["c", 4, "file", []]]]]]
+            out.append(dict(kind="stream", dir="S" if p % 2 else "R", recs=recs, chunk=rng_free_chunk(p), mseed=p,
+                            manip=["trunc", p], app=app + [["end", ["lost", why]]], loss=why))
+    return out
+
+
+def rng_free_chunk(p):
+    return ["all", "aligned", "rand", "one"][p % 4]
+
+
 def cases(rng, tier):
     out = corpus()
     n = 1 if tier == "quick" else 25
@@ -1010,7 +1060,13 @@ def cases(rng, tier):
     if tier == "thorough":
         out += exhaustive_chunkings()
         out += every_point()
+        out += every_cut()
     else:
+        cuts = every_cut()
+        fixed = {0, 2, 10, 30, 45, 47, 48, 91, 100, 137}    # record boundaries, length prefix, nonce, MAC, ciphertext, no cut
+        out += [c for c in cuts if c["manip"][1] in fixed]
+        rest = [c for c in cuts if c["manip"][1] not in fixed]
+        out += [rest[i] for i in sorted(rng.sample(range(len(rest)), 45))]
         pts = every_point()
         out += [pts[i] for i in sorted(rng.sample(range(len(pts)), 60))]
         ex = exhaustive_chunkings()
@@ -1023,7 +1079,7 @@ def search(rng, seconds, seeds):
     t0 = time.time()
     for c in seeds:
         yield c, run_case(c)
-    for c in corpus() + every_point():
+    for c in corpus() + every_cut() + every_point():
         yield c, run_case(c)
         if time.time() - t0 > seconds:
             return
